@@ -567,6 +567,14 @@ def check(ctx) -> None:
     # an earlier chunk (shared with C06-B10)
     c06.rule_b10(ctx, "C05-P12")
     rule_p13(ctx)
+    # P16: the front ends read every record as written: no CSV option that consumes characters of a cell ('#' as a
+    # comment sign cuts a nitrile in two, the row then fails to parse and every later row shifts; shared with C02-T8)
+    c02.rule_t8(ctx, "C05-P16")
+    # P17: a batch served from the cache is the batch that was asked for: the key covers the whole rows (shared with
+    # C12-K8)
+    from . import c12
+
+    c12.rule_k8(ctx, "C05-P17")
     # P15: values computed row by row stay with their row when they are put back into a frame (label alignment)
     c06.rule_index_alignment(ctx, "C05-P15")
     # P14: a fault while one reaction is worked on stays with that reaction (shared with C06-B14)
